@@ -208,6 +208,9 @@ func (s *vfSticky) event(op vfStickyOp, d *vfDialog, rnd *rand.Rand, expires int
 		if op.M == "NOTIFY" {
 			extra = append(extra, vfHdr{"Subscription-State", []string{"active", "active;expires=30", "pending"}[rnd.Intn(3)]})
 		}
+		if expires > 0 { // a request's Expires is not what the pin's lifetime is measured by
+			extra = append(extra, vfHdr{"Expires", fmt.Sprint(expires)})
+		}
 		res := s.step("indialog-"+op.M, ua, 40000, s.request(d, op.M, swap, true, extra...))
 		if op.M == "INVITE" {
 			for _, o := range res.Outs {
@@ -242,6 +245,11 @@ func (s *vfSticky) event(op vfStickyOp, d *vfDialog, rnd *rand.Rand, expires int
 		}
 		d.cseq = 1
 		s.step("subscribe-answered", s.g.ip("10.0.1.1"), 5070, s.response(d, 200, "SUBSCRIBE", vias, true, extra...))
+	case "uptime":
+		// more than a dialog timeout passes without a purge of the pin table while the dialogs stay young: the state the
+		// table's purge clock is in when the last purge was armed before the live pins were stored (written between two
+		// loop iterations, behind the barrier).  No pin is touched.
+		s.b.proxies[0].dialogBasedBackends.nextCleanTime = time.Now().Add(-time.Second)
 	case "unrelated":
 		u := s.newDialog(rnd, 900000+s.nbr)
 		s.step("unrelated", ua, 40000, s.request(u, []string{"OPTIONS", "MESSAGE", "REGISTER"}[rnd.Intn(3)], false, false))
@@ -337,6 +345,8 @@ func TestVfSticky(t *testing.T) {
 					state[j] = 2
 				case x < 3:
 					s.event(vfStickyOp{Op: "unrelated"}, nil, rnd, 0)
+				case x == 19 && st%3 == 0:
+					s.event(vfStickyOp{Op: "uptime"}, nil, rnd, 0)
 				case x == 3 && state[j] == 2:
 					s.event(vfStickyOp{Op: "bye"}, d, rnd, 0)
 				case x == 4 && state[j] == 2:
@@ -395,7 +405,7 @@ func TestVfSticky(t *testing.T) {
 							s.event(vfStickyOp{Op: "bye"}, d, rnd, 0)
 						}
 					}
-					s.event(vfStickyOp{Op: "indialog", M: []string{"INFO", "UPDATE", "NOTIFY", "ACK"}[rnd.Intn(4)]}, d, rnd, 0)
+					s.event(vfStickyOp{Op: "indialog", M: []string{"INFO", "UPDATE", "NOTIFY", "ACK"}[rnd.Intn(4)]}, d, rnd, []int{0, 0, 3600, 2147483647}[rnd.Intn(4)])
 				}
 				time.Sleep(time.Duration(Tms/2) * time.Millisecond)
 			}
